@@ -211,7 +211,10 @@ class Interp(ExprMixin, StmtMixin):
             return self.call_method(callee, args, kwargs, node)
         if isinstance(callee, ZV) and (callee.tag or "").startswith("ClassOf:"):
             # `cls(...)` in a classmethod: the class the contract declares (subclasses constructing themselves are outside)
-            return self.inline_ctor(callee.tag[len("ClassOf:"):], args, kwargs, node)
+            cpath = callee.tag[len("ClassOf:"):]
+            if cpath not in R.INLINE_CTORS and isinstance(R.EXTERNALS.get(cpath), R.ExtFn):
+                return R.EXTERNALS[cpath].f(self, args, kwargs, node)
+            return self.inline_ctor(cpath, args, kwargs, node)
         if isinstance(callee, ZV):
             h = R.METHODS.get((base_tag(callee.tag), "__call__"))
             if h:
@@ -394,7 +397,11 @@ class Interp(ExprMixin, StmtMixin):
         short = c.target.split(":")[1]
         in_spec = st.spec_mode > 0
         # preconditions
-        if not in_spec:
+        pre_holds = None
+        if not in_spec and c.outside_pre:
+            # total view of a partial contract: where `requires` fails only the definitional clauses are known (stated assumption c.outside_pre)
+            pre_holds = z3.And(*[as_bool(self.spec_eval_in(clause, env)) for clause in c.requires.values()]) if c.requires else None
+        elif not in_spec:
             for label, clause in c.requires.items():
                 g = as_bool(self.spec_eval_in(clause, env))
                 self.oblige("pre:%s:%s@%d" % (short, label, line), g, line, clause=clause)
@@ -440,11 +447,13 @@ class Interp(ExprMixin, StmtMixin):
             cond = L.fresh("raises_" + exc.replace(".", "_"), L.B)
             if st.qctx:
                 # under a quantifier we cannot fork: the caller must show the raise condition is false
+                if getattr(self, "_defer", None) is not None:
+                    # inside a comprehension: some element's call may raise (only where its raise condition holds);
+                    # decided where the comprehension is consumed
+                    er_ = L.fresh("elem_raises_" + exc.replace(".", "_"), L.B)
+                    self._defer.append((z3.Not(er_ if clause is None else z3.And(er_, as_bool(self.spec_eval_in(clause, env)))), exc))
+                    continue
                 if clause is None:
-                    if getattr(self, "_defer", None) is not None:
-                        # inside a comprehension: some element's call may raise; decided where the comprehension is consumed
-                        self._defer.append((z3.Not(L.fresh("elem_raises_" + exc.replace(".", "_"), L.B)), exc))
-                        continue
                     raise Unsupported("call that may raise under quantifier (line %d)" % line)
                 self.oblige("safe:no-raise:%s:%s@%d" % (short, exc, line), z3.Not(as_bool(self.spec_eval_in(clause, env))), line, clause)
                 continue
@@ -453,7 +462,8 @@ class Interp(ExprMixin, StmtMixin):
                 cond = z3.And(cond, may)
             if self.branch(cond, line):
                 for label, cl in c.ensures_exc.items():
-                    st.assume(as_bool(self.spec_eval_in(cl, env, heap_before, eff_before)))
+                    b_ = as_bool(self.spec_eval_in(cl, env, heap_before, eff_before))
+                    st.assume(b_ if pre_holds is None else z3.Implies(pre_holds, b_))
                 raise RaisedEx(ExcVal(exc, exact=exc.endswith("!")), line)
         env2 = dict(env)
         env2["result"] = result
@@ -465,11 +475,65 @@ class Interp(ExprMixin, StmtMixin):
             if c.hide == "*" or label in c.hide:
                 continue
             cl = as_bool(self.spec_eval_in(clause, env2, heap_before, eff_before))
+            if pre_holds is not None and not any(label.startswith(p_) for p_ in c.definitional):
+                cl = z3.Implies(pre_holds, cl)
             if z3.is_false(z3.simplify(cl)):
                 # vacuity guard: assuming it would make every later obligation of the caller trivially true
                 raise Unsupported("ensures %s of %s evaluates to False at the call site (line %d): not revealed" % (label, c.target, line))
             st.assume(cl)
         return result
+
+    def assume_used_contract(self, cc):
+        """`uses`: the (separately proved) contract of a pure function as a lemma about its function symbol:
+        forall args. requires(args) => ensures(args, F(args)); and, for one-argument functions, the meaning of calling the
+        function through a reference: apply1(<f>, x) == F(x), which does not raise where requires holds and the contract has no raises."""
+        st = self.st
+        if not cc.pure or cc.modifies or cc.effects is not None:
+            raise Unsupported("uses: %s is not a pure function" % cc.target)
+        mi, fnode = source.find_function(cc.target)
+        if fnode is None:
+            raise Unsupported("uses: %s vanished" % cc.target)
+        order = [a.arg for a in fnode.args.posonlyargs + fnode.args.args + fnode.args.kwonlyargs]
+        sorts = {"strp": L.S, "int": L.I, "bool": L.B}
+        wrap = {"strp": ZS, "int": ZI, "bool": ZB}
+        consts, env = [], {}
+        for n in order:
+            tag = cc.params.get(n)
+            k = L.fresh("u_" + n, sorts.get(tag, L.V))
+            consts.append(k)
+            env[n] = wrap[tag](k) if tag in wrap else ZV(k, tag)
+        argterms = [as_v(env[n]) for n in order]
+        rs = sorts.get(cc.result, L.V)
+        F = L.fn("F_" + cc.target, *([L.V] * len(argterms) + [rs]))
+        rterm = F(*argterms)
+        result = wrap[cc.result](rterm) if cc.result in wrap else self.retag(rterm, cc.result)
+        req = [as_bool(self.spec_eval_in(cl, env)) for cl in cc.requires.values()]
+        env2 = dict(env)
+        env2["result"] = result
+        for nme, clause in cc.lets.items():
+            env2[nme] = self.spec_eval_in(clause, env2)
+        ens = [as_bool(self.spec_eval_in(cl, env2)) for lb, cl in cc.ensures.items() if not (cc.hide == "*" or lb in cc.hide)]
+        if cc.result == "str":
+            ens.append(L.is_str(rterm))
+        if any(cl is None for cl in cc.raises.values()):
+            raise Unsupported("uses: %s has an unconditional raises clause (its result is only specified where it returns)" % cc.target)
+        rconds = [as_bool(self.spec_eval_in(cl, env)) for cl in cc.raises.values()]
+        returns = req + [z3.Not(rc) for rc in rconds]      # where the function is specified to return
+        body = z3.Implies(z3.And(*returns) if returns else z3.BoolVal(True), z3.And(*ens) if ens else z3.BoolVal(True))
+        st.pc.append(z3.ForAll(consts, body, patterns=[rterm]))
+        if len(order) == 1:
+            fatom = as_v(GlobalRef(cc.target))
+            ap = L.fn("apply1", L.V, L.V, L.V)(fatom, argterms[0])
+            boxed = as_v(result)
+            facts = [ap == boxed]
+            fr_ = L.fn("fn_raises", L.V, L.V, L.B)(fatom, argterms[0])
+            if not cc.raises:
+                facts.append(z3.Implies(z3.And(*req) if req else z3.BoolVal(True), z3.Not(fr_)))
+            else:
+                facts.append(z3.Implies(z3.And(*(req + [fr_])), z3.Or(*rconds)))
+                # a call through the reference that did return satisfies the postconditions
+                facts.append(z3.Implies(z3.And(*(req + [z3.Not(fr_)])), z3.And(*ens) if ens else z3.BoolVal(True)))
+            st.pc.append(z3.ForAll(consts, z3.And(*facts), patterns=[ap, fr_]))
 
     def spec_eval_in(self, clause, env, heap_before=None, eff_before=None):
         """Evaluate a callee's clause in the callee's parameter environment and module."""
@@ -579,6 +643,8 @@ class Interp(ExprMixin, StmtMixin):
             return PyC(str(v.value))
         if is_prim_int(v):
             return ZS(z3.IntToStr(as_int(v)))
+        if isinstance(v, ZV) and base_tag(v.tag) == "str" and self.entails(v.term != L.NONE):
+            return ZS(L.unbox_str(v.term))     # Optional[str] known not to be None on this path: str(s) is s
         h = isinstance(v, ZV) and R.METHODS.get((base_tag(v.tag), "__str__"))
         if h:
             return h(self, v, [], {}, node)
@@ -823,6 +889,8 @@ class Interp(ExprMixin, StmtMixin):
             st.assume(as_bool(self.spec_eval(clause)))
         for label, clause in c.assumes.items():
             st.assume(as_bool(self.spec_eval(clause)))
+        for tgt in c.uses:
+            self.assume_used_contract(R.CONTRACTS[tgt])
         self.n_requires = len(st.pc)
         return st
 
@@ -888,6 +956,8 @@ class Interp(ExprMixin, StmtMixin):
         if self.is_ctxmgr and self.body_raised:
             which = c.ensures_exc
         for label, clause in which.items():
+            if any(label.startswith(p_) for p_ in c.definitional):
+                continue        # defines a spec symbol (listed in the evidence as a definition); nothing to prove
             g = as_bool(self.spec_eval(clause, env, clean=True))
             self.oblige(label, g, line, clause=clause)
 
@@ -917,7 +987,7 @@ class Interp(ExprMixin, StmtMixin):
             self.oblige("raises:allowed:%s@%d" % (name, r.line), z3.BoolVal(True), r.line, clause="%s is permitted by the contract" % name)
         env = dict(self.entry_env)
         env.update({"L_" + k: v for k, v in st.env.items()})
-        if clause is not None:
+        if clause is not None and not any(("raises:" + name).startswith(p_) for p_ in c.definitional):
             g = as_bool(self.spec_eval(clause, env, clean=True))
             self.oblige("raises:%s@%d" % (name, r.line), g, r.line, clause=clause)
         for label, cl in c.ensures_exc.items():
